@@ -332,6 +332,16 @@ static void gen_c02_schnorr(const std::string& tier, std::vector<Work>& W) {
             if (std::string(type) == "p2tr-script") { gen::Spend S = gen::make_spend(type, sh, 1, 1, annex); S.tx.vin[0].witness[0].clear(); run_case(S, "p2tr-script empty signature", "schnorr-empty:p2tr-script", F_STANDARD, V, S2); }
         }, std::string("schnorr hashtypes ") + type});
     }
+    // (1b) a transaction without outputs: SIGHASH_SINGLE has no matching output (BIP341: the signature is invalid), the other types are fine
+    for (bool annex : {false, true}) for (const char* type : {"p2tr-key", "p2tr-script"}) {
+        W.push_back({[=](Violations& V, Stats2& S2) {
+            gen::Shape sh; sh.nin = 1; sh.nout = 0; sh.pos = 0; sh.fund_vout = 1; sh.amount = 4200000;
+            for (int ht : {0, 1, 2, 3, 0x81, 0x82, 0x83, 4, 0x80}) {
+                gen::Spend S = gen::make_spend(type, sh, uint8_t(ht), 1, annex);
+                run_case(S, std::string(type) + " hashtype=" + std::to_string(ht) + " nout=0" + (annex ? " annex" : ""), std::string("schnorr-hashtype-no-outputs:") + type + (annex ? ":annex" : ""), F_STANDARD, V, S2);
+            }
+        }, std::string("schnorr hashtypes, no outputs ") + type});
+    }
     // (2) tapscript templates: code separator placement, CHECKSIGVERIFY, two signatures, CHECKSIGADD
     struct TT { std::string name; std::function<bytes(const std::vector<gen::Key>&)> leaf; std::vector<TSlot> slots; std::function<std::vector<bytes>(const std::vector<bytes>&)> stack; };
     auto one = [](const std::vector<bytes>& s) { return std::vector<bytes>{s[0]}; };
